@@ -78,7 +78,7 @@ Definition nonend (F : famops) (w : word) : Prop := f_end F (w0 w) = false.
 Definition isend (F : famops) (w : word) : Prop := f_end F (w0 w) = true.
 
 Record famlaws (F : famops) : Prop := mkLaws {
-  (* a well-terminated backtrace of k hop words: admitted iff k + 1 <= ttl, with exactly those words moved *)
+  (* a well-terminated backtrace of k hop words: letin iff k + 1 <= ttl, with exactly those words moved *)
   law_front : forall ws wend rest p ttl, Forall (nonend F) ws -> isend F wend -> ttl <= RT_TTL_MAX ->
     f_front_recv F p ttl (flat ws ++ wb wend ++ rest) =
       if length ws <? ttl then RDeliver (mkPmsg (be32 p ++ flat ws ++ wb wend) rest) else RDrop;
@@ -88,7 +88,7 @@ Record famlaws (F : famops) : Prop := mkLaws {
   law_back : forall ws wend rest, Forall (nonend F) ws -> isend F wend -> length ws < 16 ->
     f_back_recv F (flat ws ++ wb wend ++ rest) = RDeliver (mkPmsg (flat ws ++ wb wend) rest);
   law_send : forall p h b, (p < W32)%N -> f_front_send F (mkPmsg (be32 p ++ h) b) = Some (p, mkPmsg h b);
-  (* any wire that starts with g hop words is admitted only when g < ttl *)
+  (* any wire that starts with g hop words is letin only when g < ttl *)
   law_lead : forall ws rest p ttl m, Forall (nonend F) ws ->
     f_front_recv F p ttl (flat ws ++ rest) = RDeliver m -> length ws < ttl;
   law_lead_cooked : forall ws rest ttl m, Forall (nonend F) ws ->
